@@ -150,5 +150,6 @@ neg("shiftw-pow2-guard-rewritten","decimal_conv.go","	if n < _W {","	if n <= _W-
 pos("carry-decaddat-one-word-window","dec.go","				add10VW(z[j:], z[j:], c)","				add10VW(z[j:j+1], z[j:], c)","CARRY","decAddAt/add10VW/window",quick=True,note="seed r5-C05B")
 pos("sibling-karatsubasub-half-window","dec.go","		sub10VW(z[n:n+n>>1], z[n:], c)","		sub10VW(z[n:n+n>>2], z[n:], c)","SIBLING","decKaratsubaAdd~decKaratsubaSub",quick=True,note="seed r5-C05C")
 neg("sibling-karatsuba-windows-rewritten","dec.go","		sub10VW(z[n:n+n>>1], z[n:], c)","		sub10VW(z[n:n>>1+n], z[n:], c)",["SIBLING"])
+pos("workprec-floatpow5-minprec","stdlib.go","	f := new(big.Float).SetPrec(z.Prec() + 64).SetUint64(5)","	f := new(big.Float).SetPrec(z.MinPrec() + 64).SetUint64(5)","WORKPREC","floatPow5",quick=True,note="seed r5-C15C")
 json.dump(C,open("seedrules.json","w"),indent=1,ensure_ascii=False)
 print(len(C),"controls")
